@@ -68,6 +68,8 @@ def ops_list(draw, params, maxlen=40):
             op['v'] = draw(st.sampled_from(INVALID[p['kind']]))
         if k in ('readerr', 'annerr'):
             op['text'] = draw(st.sampled_from(['a', 'a', 'b']))
+        if k.startswith('read') and draw(st.integers(0, 2)) == 0:
+            op['poll'] = True      # the read function is called by the poller (callPollFunc), which handles and logs the error
         if k == 'tick':
             op['dt'] = draw(st.sampled_from([0.01, 0.2, 3.0, 10.0]))
         ops.append(op)
@@ -133,6 +135,9 @@ def build(spec, clock, script, yielding=False):
     conn = Conn(yielding)
     kit.dispatcher.handle_request(conn, ('activate', None, None))
     mobj = kit.modules['u']
+    import threading as _th
+    from frappy.modulebase import PollInfo
+    mobj.pollInfo = PollInfo(1, _th.Event())
     for p in spec['params']:
         # callbacks of other modules (addCallback / registerCallbacks) which fail: on errors only (an update_<p>(value) method
         # without error argument, the documented "nothing happens" case), or always
@@ -156,6 +161,12 @@ def do_op(mobj, op, script, dts, clock=None):
     k, pn = op['op'], op['p']
     dt = dts[pn]
     res = None
+
+    def call_read():
+        if op.get('poll'):
+            mobj.callPollFunc(getattr(mobj, 'read_' + pn))
+        else:
+            getattr(mobj, 'read_' + pn)()
     try:
         if k == 'tick':
             if clock is not None:
@@ -166,24 +177,24 @@ def do_op(mobj, op, script, dts, clock=None):
         if k == 'readok':
             script[('r', pn)] = op['v']
             res = ('value', rm.canon(dt(op['v'])))
-            getattr(mobj, 'read_' + pn)()
+            call_read()
         elif k == 'readerr':
             e = HardwareError(op['text'])
             script[('r', pn)] = e
             res = ('error', errkey(e))
-            getattr(mobj, 'read_' + pn)()
+            call_read()
         elif k == 'readexc':
             e = ValueError('x')
             script[('r', pn)] = e
             res = ('error', errkey(e))
-            getattr(mobj, 'read_' + pn)()
+            call_read()
         elif k == 'readbad':
             script[('r', pn)] = op['v']
             try:
                 dt(op['v'])
             except Exception as e:   # noqa
                 res = ('error', errkey(e))
-            getattr(mobj, 'read_' + pn)()
+            call_read()
         elif k == 'write':
             ret = {'same': '$same', 'none': None, 'other': op['other']}[op['ret']]
             script[('w', pn)] = ret
